@@ -258,13 +258,29 @@ package builder
 //@   ensures@C13 GenInv(this)
 //@   ensures result1 ==> result0 != nil
 
+// a rule is only ever asked to Build/Assign a pair it matches (what its Matches promised is its precondition)
+//@ pred BuilderApplies(b Builder, ctx *MethodContext, s *xtype.Type, t *xtype.Type) bool = b != nil
+//@     && (dynIs[*SkipCopy](b) ==> MatchesSkipCopy(ctx, s, t))
+//@     && (dynIs[*BasicTargetPointerRule](b) ==> MatchesBasicTargetPointer(s, t))
+//@     && (dynIs[*Pointer](b) ==> MatchesPointer(s, t))
+//@     && (dynIs[*SourcePointer](b) ==> MatchesSourcePointer(ctx, s, t))
+//@     && (dynIs[*TargetPointer](b) ==> MatchesTargetPointer(s, t))
+//@     && (dynIs[*Basic](b) ==> MatchesBasic(s, t))
+//@     && (dynIs[*Struct](b) ==> MatchesStruct(s, t))
+//@     && (dynIs[*List](b) ==> MatchesList(s, t))
+//@     && (dynIs[*Map](b) ==> MatchesMap(s, t))
+//@     && (dynIs[*UseUnderlyingTypeMethods](b) ==> MayMatchUnderlying(ctx, s, t))
+//@     && (dynIs[*Enum](b) ==> MayMatchEnum(ctx, s, t))
+
 //@ func Builder.Build
 //@   props C03
+//@   requires@C13 BuilderApplies(this, ctx, source, target)
 //@   requires@C13 gen != nil && GenInv(gen) && CallOK(ctx, sourceID, source, target)
 //@   ensures@C13 GenInv(gen)
 //@   ensures err == nil ==> result1 != nil && result1.Code != nil
 //@ func Builder.Assign
 //@   props C03
+//@   requires@C13 BuilderApplies(this, ctx, source, target)
 //@   requires@C13 gen != nil && GenInv(gen) && CallOK(ctx, sourceID, source, target) && AssignOK(assignTo)
 //@   ensures@C13 GenInv(gen)
 
@@ -290,11 +306,13 @@ package builder
 //@   props C03 C13
 //@   propagates
 //@   requires@C13 b != nil && gen != nil && GenInv(gen) && CallOK(ctx, sourceID, source, target) && AssignOK(assignTo)
+//@   requires@C13 BuilderApplies(b, ctx, source, target)
 //@   ensures@C13 GenInv(gen)
 //@ func BuildByAssign
 //@   props C03 C13
 //@   propagates
 //@   requires@C13 b != nil && gen != nil && GenInv(gen) && CallOK(ctx, sourceID, source, target)
+//@   requires@C13 BuilderApplies(b, ctx, source, target)
 //@   ensures@C13 GenInv(gen)
 //@   ensures err == nil ==> result1 != nil && result1.Code != nil && isFresh(result1)
 //@ func buildTargetVar
